@@ -1,6 +1,314 @@
 /- helper lemmas for Props/C01.lean -/
 import N2k.Model.Spec
 import N2k.Model.Interp
-namespace N2k
+namespace N2k.Dec01
+open N2k N2k.Spec
 
-end N2k
+/-! ### codecs -/
+
+theorem decode_int_bits (data o l : Nat) : Straight.decode_int data o l = data / 2 ^ o % 2 ^ l := by
+  simp only [Straight.decode_int, Nat.shiftRight_eq_div_pow, Nat.shiftLeft_eq, Nat.one_mul, Nat.and_two_pow_sub_one_eq_mod]
+
+theorem ite3_ne {ε α} (a b : Prop) [Decidable a] [Decidable b] (e1 e2 : ε) (v : α) :
+    (if a then Except.error e1 else if b then Except.error e2 else Except.ok (some v)) ≠ Except.ok none := by
+  by_cases a <;> by_cases b <;> simp [*]
+
+theorem decodeNumber_na (data off len : Nat) (signed : Bool) (res mn mx ofs : Lit) :
+    decodeNumber data off len signed res mn mx ofs = .ok none ↔
+      naCode len signed =
+        some (if signed then signExtend (Straight.decode_int data off len) len
+              else ((Straight.decode_int data off len : Nat) : Int)) := by
+  simp only [decodeNumber]
+  generalize (if signed = true then signExtend (Straight.decode_int data off len) len
+              else ((Straight.decode_int data off len : Nat) : Int)) = z
+  by_cases h : naCode len signed = some z
+  · rw [if_pos h]; exact ⟨fun _ => h, fun _ => rfl⟩
+  · rw [if_neg h]
+    exact ⟨fun hh => absurd hh (ite3_ne _ _ _ _ _), fun hh => absurd hh h⟩
+
+theorem pow10_zero : pow10 0 = 1 := by decide +kernel
+theorem rat_sub_zero (a : Rat) : a - 0 = a := by rw [Rat.sub_eq_add_neg, Rat.neg_zero, Rat.add_zero]
+
+theorem decodeNumber_total_int (data off len : Nat) (signed : Bool) (r mn mx o : Int)
+    (z : Int) (hz : z = (if signed then signExtend (Straight.decode_int data off len) len
+                          else ((Straight.decode_int data off len : Nat) : Int)))
+    (hna : naCode len signed ≠ some z) (h1 : mn ≤ z * r + o) (h2 : z * r + o ≤ mx) :
+    decodeNumber data off len signed (Lit.ofInt r) (Lit.ofInt mn) (Lit.ofInt mx) (Lit.ofInt o) = .ok (some (.int (z * r + o))) := by
+  simp only [decodeNumber]
+  rw [← hz]
+  simp only [if_neg hna, Lit.ofInt, mulLit, addLit, Lit.val, Lit.exact, pow10_zero, Bool.false_eq_true, if_false, or_self,
+    Num.toRat, Rat.mul_one, Rat.add_zero, rat_sub_zero, gt_iff_lt, Rat.intCast_lt_intCast]
+  rw [if_neg (by omega), if_neg (by omega)]
+
+/-! ### statement interpreter -/
+
+theorem runStmts_cons_ok {env : Env} {data off : Nat} {done : List Field} {s : DecStmt} {rest : List DecStmt}
+    {out : List Field}
+    (h : runStmts env data off done (s :: rest) = .ok out) :
+    ∃ v raw off2 done2 off3,
+      runOp env data (match s.off with | some o => o | none => off) done s.op = .ok (v, raw, off2) ∧
+      (done2 = done ++ [⟨s.fmeta, v, raw⟩] ∨
+        ∃ p val, s.patch = some p ∧ done2 = setValue (done ++ [⟨s.fmeta, v, raw⟩]) p.target val) ∧
+      runStmts env data off3 done2 rest = .ok out := by
+  rw [runStmts] at h
+  simp only [bind, Except.bind, pure, Except.pure, throw, throwThe, MonadExceptOf.throw] at h
+  split at h
+  · cases h
+  · rename_i r hop
+    obtain ⟨v, raw, off2⟩ := r
+    refine ⟨v, raw, off2, ?_⟩
+    split at h
+    · exact ⟨_, _, hop, Or.inl rfl, h⟩
+    · rename_i p hp
+      split at h
+      · split at h
+        · cases h
+        · rename_i d2 hd2
+          split at hd2
+          · cases hd2
+            exact ⟨_, _, hop, Or.inr ⟨p, _, hp, rfl⟩, h⟩
+          · cases hd2
+          · cases hd2
+      · cases h
+
+theorem setValue_length (l : List Field) (k : Nat) (v : PyVal) : (setValue l k v).length = l.length := by
+  simp [setValue]
+
+theorem setValue_getElem? (l : List Field) (k : Nat) (v : PyVal) (i : Nat) :
+    (setValue l k v)[i]? = l[i]?.map (fun f => if i = k then { f with value := v } else f) := by
+  simp [setValue, List.getElem?_mapIdx]
+
+theorem setValue_map_fmeta (l : List Field) (k : Nat) (v : PyVal) :
+    (setValue l k v).map (·.fmeta) = l.map (·.fmeta) := by
+  apply List.ext_getElem?
+  intro i
+  simp only [List.getElem?_map, setValue_getElem?]
+  cases l[i]? with
+  | none => rfl
+  | some f => simp only [Option.map_some]; split <;> rfl
+
+/-- `b` extends `a`; metadata and raw values are kept, values are kept outside `P` -/
+def Ext (P : Nat → Prop) (a b : List Field) : Prop :=
+  ∀ i x, a[i]? = some x →
+    ∃ y, b[i]? = some y ∧ y.fmeta = x.fmeta ∧ y.raw = x.raw ∧ (¬ P i → y.value = x.value)
+
+theorem Ext.refl (P) (a : List Field) : Ext P a a := fun _ x hx => ⟨x, hx, rfl, rfl, fun _ => rfl⟩
+
+theorem Ext.trans {P} {a b c : List Field} (h1 : Ext P a b) (h2 : Ext P b c) : Ext P a c := by
+  intro i x hx
+  obtain ⟨y, hy, m1, r1, v1⟩ := h1 i x hx
+  obtain ⟨z, hz, m2, r2, v2⟩ := h2 i y hy
+  exact ⟨z, hz, m2.trans m1, r2.trans r1, fun hp => (v2 hp).trans (v1 hp)⟩
+
+theorem Ext.append (P) (a : List Field) (x : Field) : Ext P a (a ++ [x]) := by
+  intro i y hy
+  refine ⟨y, ?_, rfl, rfl, fun _ => rfl⟩
+  have hi : i < a.length := (List.getElem?_eq_some_iff.mp hy).1
+  rw [List.getElem?_append_left hi]; exact hy
+
+theorem Ext.set {P : Nat → Prop} (a : List Field) (k : Nat) (v : PyVal) (hk : P k) :
+    Ext P a (setValue a k v) := by
+  intro i x hx
+  rw [setValue_getElem?, hx]
+  refine ⟨_, rfl, ?_, ?_, ?_⟩
+  · simp only; split <;> rfl
+  · simp only; split <;> rfl
+  · intro hp
+    have : i ≠ k := fun e => hp (e ▸ hk)
+    simp only [if_neg this]
+
+theorem runStmts_meta (env : Env) (data : Nat) : ∀ (stmts : List DecStmt) (off : Nat) (done out : List Field),
+    runStmts env data off done stmts = .ok out →
+    out.map (·.fmeta) = done.map (·.fmeta) ++ stmts.map (·.fmeta) := by
+  intro stmts
+  induction stmts with
+  | nil =>
+    intro off done out h
+    simp only [runStmts, pure, Except.pure, Except.ok.injEq] at h
+    simp [h]
+  | cons s rest ih =>
+    intro off done out h
+    obtain ⟨v, raw, off2, done2, off3, -, hd, hr⟩ := runStmts_cons_ok h
+    rw [ih off3 done2 out hr]
+    rcases hd with rfl | ⟨p, val, -, rfl⟩
+    · simp
+    · simp [setValue_map_fmeta]
+
+theorem runStmts_inv (env : Env) (data : Nat) (P : Nat → Prop) :
+    ∀ (stmts : List DecStmt) (off : Nat) (done out : List Field),
+    (∀ s ∈ stmts, ∀ p, s.patch = some p → P p.target) →
+    runStmts env data off done stmts = .ok out →
+    out.length = done.length + stmts.length ∧ Ext P done out ∧
+    ∀ j s, stmts[j]? = some s →
+      ∃ done' off1 v raw off' y, done'.length = done.length + j ∧ (∀ o, s.off = some o → off1 = o) ∧
+        runOp env data off1 done' s.op = .ok (v, raw, off') ∧ out[done.length + j]? = some y ∧
+        y.fmeta = s.fmeta ∧ y.raw = raw ∧ (¬ P (done.length + j) → y.value = v) := by
+  intro stmts
+  induction stmts with
+  | nil =>
+    intro off done out _ h
+    simp only [runStmts, pure, Except.pure, Except.ok.injEq] at h
+    subst h
+    exact ⟨rfl, Ext.refl _ _, fun j s hs => by simp at hs⟩
+  | cons s rest ih =>
+    intro off done out hP h
+    obtain ⟨v, raw, off2, done2, off3, hop, hd, hr⟩ := runStmts_cons_ok h
+    have hP' : ∀ s ∈ rest, ∀ p, s.patch = some p → P p.target :=
+      fun s' hs' => hP s' (List.mem_cons_of_mem _ hs')
+    obtain ⟨hlen, hext, hj⟩ := ih off3 done2 out hP' hr
+    have hd2 : done2.length = done.length + 1 ∧ Ext P (done ++ [⟨s.fmeta, v, raw⟩]) done2 := by
+      rcases hd with rfl | ⟨p, val, hp, rfl⟩
+      · exact ⟨by simp, Ext.refl _ _⟩
+      · exact ⟨by simp [setValue_length], Ext.set _ _ _ (hP s (List.mem_cons_self ..) p hp)⟩
+    obtain ⟨hl2, he2⟩ := hd2
+    have hext' : Ext P (done ++ [⟨s.fmeta, v, raw⟩]) out := he2.trans hext
+    refine ⟨by simp [hlen, hl2]; omega, (Ext.append P done _).trans hext', ?_⟩
+    intro j s' hs'
+    cases j with
+    | zero =>
+      simp only [List.getElem?_cons_zero, Option.some.injEq] at hs'
+      subst hs'
+      obtain ⟨y, hy, m, r, vv⟩ := hext' done.length ⟨s.fmeta, v, raw⟩ (by simp)
+      refine ⟨done, _, v, raw, off2, y, rfl, ?_, hop, hy, m, r, vv⟩
+      intro o ho; simp [ho]
+    | succ j =>
+      simp only [List.getElem?_cons_succ] at hs'
+      obtain ⟨done', off1, v', raw', off', y, h1, h2, h3, h4, h5, h6, h7⟩ := hj j s' hs'
+      have e : done2.length + j = done.length + (j + 1) := by omega
+      rw [e] at h1 h4 h7
+      exact ⟨done', off1, v', raw', off', y, h1, h2, h3, h4, h5, h6, h7⟩
+
+/-! ### compiled statements -/
+
+theorem decStmts_map_fmeta : ∀ (fs : List FieldDef) (pend : Pending),
+    (decStmts pend fs).map (·.fmeta) = fs.map fieldMeta := by
+  intro fs
+  induction fs with
+  | nil => intro pend; rfl
+  | cons f fs ih => intro pend; simp only [decStmts, List.map_cons, ih]
+
+theorem decStmts_getElem? : ∀ (fs : List FieldDef) (pend : Pending) (j : Nat) (f : FieldDef),
+    fs[j]? = some f →
+    ∃ s, (decStmts pend fs)[j]? = some s ∧ s.off = f.bitOffset ∧ s.op = decOp f ∧ s.fmeta = fieldMeta f := by
+  intro fs
+  induction fs with
+  | nil => intro pend j f h; simp at h
+  | cons g fs ih =>
+    intro pend j f h
+    cases j with
+    | zero =>
+      simp only [List.getElem?_cons_zero, Option.some.injEq] at h
+      subst h
+      simp only [decStmts, List.getElem?_cons_zero]
+      exact ⟨_, rfl, rfl, rfl, rfl⟩
+    | succ j =>
+      simp only [List.getElem?_cons_succ] at h
+      simp only [decStmts, List.getElem?_cons_succ]
+      exact ih _ j f h
+
+theorem decStmts_patch (Q : Nat → Prop) : ∀ (fs : List FieldDef) (pend : Pending),
+    (∀ o e k, pend = some (o, e, k) → Q k) →
+    (∀ f ∈ fs, f.ftype = "INDIRECT_LOOKUP" → Q (f.order - 1)) →
+    ∀ s ∈ decStmts pend fs, ∀ p, s.patch = some p → Q p.target := by
+  intro fs
+  induction fs with
+  | nil => intro pend _ _ s hs; simp [decStmts] at hs
+  | cons f fs ih =>
+    intro pend hpend hfs s hs p hp
+    simp only [decStmts, List.mem_cons] at hs
+    have hpend' : ∀ o e k,
+        (if f.ftype = "INDIRECT_LOOKUP" then
+          match f.indirectOrder, f.indirectEnum with
+          | some o, some e => some (o, e, f.order - 1)
+          | _, _ => pend
+        else pend) = some (o, e, k) → Q k := by
+      intro o e k h
+      split at h
+      · rename_i hind
+        split at h
+        · simp only [Option.some.injEq, Prod.mk.injEq] at h
+          rw [← h.2.2]; exact hfs f (List.mem_cons_self ..) hind
+        · exact hpend o e k h
+      · exact hpend o e k h
+    rcases hs with rfl | hs
+    · simp only at hp
+      split at hp
+      · rename_i o e k hk
+        split at hp
+        · simp only [Option.some.injEq] at hp
+          subst hp
+          exact hpend' o e k hk
+        · cases hp
+      · cases hp
+    · exact ih _ hpend' (fun g hg => hfs g (List.mem_cons_of_mem _ hg)) s hs p hp
+
+theorem orders_of_all (fs : List FieldDef)
+    (h : (fs.mapIdx (fun i f => f.order == i + 1)).all id = true) :
+    ∀ j f, fs[j]? = some f → f.order = j + 1 := by
+  intro j f hf
+  rw [List.all_eq_true] at h
+  have := h (f.order == j + 1) (by
+    rw [List.mem_iff_getElem?]
+    exact ⟨j, by simp [List.getElem?_mapIdx, hf]⟩)
+  simpa using this
+
+theorem runDec_ok {env : Env} {g : List PgnDef} {p : PgnDef} {data : Nat} {m : Msg}
+    (h : runDec env (compileDec g p) data = .ok m) :
+    ∃ fs, runStmts env data 0 [] (decStmts none p.fields) = .ok fs ∧
+      m = { pgn := p.pgn, id := p.id, desc := p.desc, ttlMs := p.interval, fields := fs } := by
+  simp only [runDec, compileDec, bind, Except.bind, pure, Except.pure] at h
+  split at h
+  · cases h
+  · rename_i fs hfs
+    simp only [Except.ok.injEq] at h
+    exact ⟨fs, hfs, h.symm⟩
+
+theorem compiled_field {env : Env} {g : List PgnDef} {p : PgnDef} {data : Nat} {m : Msg}
+    (h : runDec env (compileDec g p) data = .ok m)
+    (hord : ∀ j f, p.fields[j]? = some f → f.order = j + 1)
+    {i : Nat} {f : FieldDef} (hf : p.fields[i]? = some f) {o : Nat} (ho : f.bitOffset = some o) :
+    ∃ fld v off' done, m.fields[i]? = some fld ∧ done.length = i ∧
+      runOp env data o done (decOp f) = .ok (v, fld.raw, off') ∧
+      (f.ftype ≠ "INDIRECT_LOOKUP" → fld.value = v) := by
+  obtain ⟨fs, hrun, rfl⟩ := runDec_ok h
+  let P : Nat → Prop := fun k => ∃ f', p.fields[k]? = some f' ∧ f'.ftype = "INDIRECT_LOOKUP"
+  have hP : ∀ s ∈ decStmts none p.fields, ∀ q, s.patch = some q → P q.target := by
+    apply decStmts_patch P
+    · intro o e k hk; cases hk
+    · intro f' hf' hind
+      obtain ⟨j, hj⟩ := List.mem_iff_getElem?.mp hf'
+      have := hord j f' hj
+      exact ⟨f', by rw [this]; simpa using hj, hind⟩
+  obtain ⟨-, -, hj⟩ := runStmts_inv env data P _ 0 [] fs hP hrun
+  obtain ⟨s, hs, hoff, hop, -⟩ := decStmts_getElem? p.fields none i f hf
+  obtain ⟨done', off1, v, raw, off', y, h1, h2, h3, h4, -, h6, h7⟩ := hj i s hs
+  simp only [List.length_nil, Nat.zero_add] at h1 h4 h7
+  have : off1 = o := h2 o (hoff.trans ho)
+  subst this
+  subst h6
+  rw [hop] at h3
+  refine ⟨y, v, off', done', h4, h1, h3, ?_⟩
+  intro hne
+  apply h7
+  rintro ⟨f', hf'', hind⟩
+  rw [hf] at hf''
+  cases hf''
+  exact hne hind
+
+theorem decOp_indirect {f : FieldDef} {l : Nat} (hind : f.ftype = "INDIRECT_LOOKUP")
+    (hl : f.bitLength = some l) : decOp f = .indirect l := by
+  simp [decOp, hind, withLen, hl]
+
+theorem compiled_indirect_raw {env : Env} {g : List PgnDef} {p : PgnDef} {data : Nat} {m : Msg}
+    (h : runDec env (compileDec g p) data = .ok m)
+    (hord : ∀ j f, p.fields[j]? = some f → f.order = j + 1)
+    {i : Nat} {f : FieldDef} (hf : p.fields[i]? = some f) {o l : Nat} (ho : f.bitOffset = some o)
+    (hl : f.bitLength = some l) (hind : f.ftype = "INDIRECT_LOOKUP") :
+    ∃ fld, m.fields[i]? = some fld ∧ fld.raw = .int (Straight.decode_int data o l) := by
+  obtain ⟨fld, v, off', done, h1, -, h3, -⟩ := compiled_field h hord hf ho
+  refine ⟨fld, h1, ?_⟩
+  rw [decOp_indirect hind hl] at h3
+  simp only [runOp, pure, Except.pure, Except.ok.injEq, Prod.mk.injEq] at h3
+  exact h3.2.1.symm
+
+end N2k.Dec01
